@@ -33,6 +33,7 @@ from ..framework import lean_driver
 PROP = "C20"
 LEAN_TARGETS = ["Eliot.Properties.C20"]
 AUDIT = "Eliot/Audit/C20.lean"
+SKELETON_TARGETS = {"Eliot.ShapesSkel.C20_shapes (E16: pretty_format, compact_format, eliot-prettyprint's _main and EliotFilter.run as statement lists)": ("Eliot.Properties.ShapesSkel", "Eliot/Audit/ShapesSkel.lean", ["Eliot.ShapesSkel.prettyFormatBody_shape", "Eliot.ShapesSkel.compactFormatBody_shape", "Eliot.ShapesSkel.prettyMainBody_shape", "Eliot.ShapesSkel.filterRunBody_shape"])}
 THEOREMS = [
     "PP.header_first",
     "PP.header_first_compact",
